@@ -378,6 +378,19 @@ def run(chk):
                 p = cl.req("GET", "/")
                 if p.status != 200:
                     chk.fail("c20:probe-failed", "after %s the gateway no longer answers ListBuckets (%d)" % (label, p.status), {"request": label})
+        # ---- requests that carry a body in the API grammar, sent with neither Content-Length nor Transfer-Encoding (no body stream)
+        for name, method, path, query in (("PutObject", "PUT", "/bk1/nolen-obj", {}), ("PutObject-dir", "PUT", "/bk1/nolen-dir/", {}), ("UploadPart", "PUT", "/bk1/mp", {"partNumber": "1", "uploadId": uid}),
+                                          ("PutBucketTagging", "PUT", "/bk1", {"tagging": ""}), ("PutObjectTagging", "PUT", "/bk1/obj1", {"tagging": ""}), ("DeleteObjects", "POST", "/bk1", {"delete": ""}),
+                                          ("CompleteMultipartUpload", "POST", "/bk1/mp", {"uploadId": uid}), ("PutBucketPolicy", "PUT", "/bk1", {"policy": ""}), ("CreateBucket", "PUT", "/nolen-bucket", {})):
+            for ph in ("UNSIGNED-PAYLOAD", None, "STREAMING-UNSIGNED-PAYLOAD-TRAILER"):
+                t0 = time.time()
+                try:
+                    r = cl.req(method, path, query=query, body=b"", payload_hash=ph, content_length=False, timeout=15)
+                except Exception:
+                    chk.count("client-refused"); continue
+                chk.case(("no-length", name, ph), True); chk.count("nolength:%s:%dxx" % (name, r.status // 100 if r.status > 0 else 0))
+                after("%s without Content-Length and Transfer-Encoding (payload hash %s)" % (name, ph or "of the empty body"), method, r, time.time() - t0,
+                      {"method": method, "path": path, "query": query, "payload_hash": ph, "content_length_header": "absent"})
         # ---- the same kinds of requests with the access log switched on (the logger runs on every response, also on those refused
         # before authentication)
         g_main, cl_main, log_main, seen_main = g, cl, logpath, panics_seen
@@ -385,6 +398,8 @@ def run(chk):
         cl = s3c.Client(g.port, "root", "rootsecret"); logpath = os.path.join(site.base, "gw-%d.log" % g.port); panics_seen = 0
         early = [("GET", "/%zz"), ("GET", "/bk1/%zz"), ("PUT", "/bk1/%"), ("GET", "/%00"), ("GET", "/bk1/a%2"), ("DELETE", "/bk1/obj%ZZ"), ("GET", "/bk1/../../x"),
                  ("GET", "/" + "b" * 300), ("HEAD", "/%zz"), ("POST", "/bk1/%zz?uploads"), ("GET", "/bk1/obj?versionId=../x"), ("GET", "/bk1?max-keys=x")]
+        # request targets that are no path (asterisk form, a bare word): the loggers take bucket and object from the path
+        early += [("GET", "*"), ("OPTIONS", "*"), ("PUT", "*"), ("GET", "bk1"), ("DELETE", "bk1/obj"), ("GET", "http://127.0.0.1/bk1")]
         for method, raw in early:
             for signed in (True, False):
                 t0 = time.time()
@@ -418,6 +433,30 @@ def run(chk):
             chk.case(("access-log-fuzz", name, k, query[k]), True)
             after("access-log on: %s query %s=%r" % (name, k, query[k][:20]), method, r, time.time() - t0, {"method": method, "path": path, "query": query, "access_log": True})
         chk.tie("gateway with the access log still running", g.alive(), g.log_tail())
+        # ---- the debug logger switched on (it formats every header name and value of every request into a fixed-width box)
+        g = site.gateway(gwbin, global_args=["--debug"], mem_limit=6 << 30)
+        cl = s3c.Client(g.port, "root", "rootsecret"); logpath = os.path.join(site.base, "gw-%d.log" % g.port); panics_seen = 0
+        for n_ in sorted(set(list(range(96, 126)) + [1, 13, 14, 64, 200, 1000])):
+            for vlen in (0, 5, 300):
+                hname = "x-" + "a" * (n_ - 2) if n_ > 2 else "x" * n_
+                t0 = time.time()
+                try: r = cl.req("GET", "/bk1", query={"max-keys": "1"}, headers={hname: "v" * vlen}, sign=vlen != 5, timeout=15)
+                except Exception: chk.count("client-refused"); continue
+                chk.case(("debug-log", n_, vlen), True); chk.count("debuglog:%dxx" % (r.status // 100 if r.status > 0 else 0))
+                after("debug log on: GET with a header name of %d bytes and a value of %d" % (n_, vlen), "GET", r, time.time() - t0, {"header_name_length": n_, "value_length": vlen, "debug": True})
+        for i in range(60 if quick else 600):
+            name, method, path, query, body, headers = rnd.choice(eps)
+            query, headers = dict(query), dict(headers)
+            headers[rnd.choice(["x-amz-meta-" + "k" * rnd.choice([1, 90, 101, 102, 103, 120]), "content-type", "x-amz-acl"])] = rnd.choice(NASTY)[:2000].replace("\n", " ").replace("\r", " ")
+            t0 = time.time()
+            try: r = cl.req(method, path, query=query, body=body, headers=headers, sign=rnd.random() < 0.8, timeout=15)
+            except Exception: chk.count("client-refused"); continue
+            chk.case(("debug-log-fuzz", name, tuple(sorted(headers))), True)
+            after("debug log on: %s with headers %s" % (name, sorted(headers)[:3]), method, r, time.time() - t0, {"method": method, "path": path, "debug": True})
+        chk.tie("gateway with the debug logger still running", g.alive(), g.log_tail(400))
+        g.stop(kill=True)
+        try: os.truncate(logpath, 0)
+        except OSError: pass
         # ---- event notifications configured but the receiver is down / slow: ordinary requests must not take the process with them
         import socket as _so, threading as _th
         class Receiver:
